@@ -3,12 +3,14 @@ package vmshape
 import (
 	"fmt"
 	"go/types"
+	"sort"
 	"strings"
 
 	"calcsa/absint"
 	"calcsa/load"
 
 	"golang.org/x/tools/go/ssa"
+	"golang.org/x/tools/go/ssa/ssautil"
 )
 
 // helperRules: hashContext is injective on (call depth, context id) for every
@@ -130,5 +132,124 @@ func (r *ruler) okIf(rule, key string, pa *Path, ok bool, good, bad string) {
 		r.s.OK(rule, key, r.ppos(pa), good)
 	} else {
 		r.s.Bad(rule, key, r.ppos(pa), bad, pa.Describe()...)
+	}
+}
+
+// readerUses (V12): the process-wide input reader holds read-ahead that
+// belongs to later read() calls. Nothing but READ's ReadString may touch it:
+// a Reset/Discard drops buffered lines, a second consumer steals them, a
+// store replaces the reader together with its buffer.
+func (r *ruler) readerUses(name string) {
+	key := "vm." + name + " / only READ consumes the shared input reader"
+	sp := r.m.P.SPkg("vm")
+	if sp == nil {
+		return
+	}
+	g, _ := sp.Members[name].(*ssa.Global)
+	if g == nil {
+		r.s.Unk("V12", key, r.pos, "the reader READ uses is not a package level variable of package vm")
+		return
+	}
+	var bad []string
+	uses := 0
+	for fn := range ssautil.AllFunctions(r.m.P.SSA) {
+		if fn.Pkg != sp || fn.Blocks == nil {
+			continue
+		}
+		for _, b := range fn.Blocks {
+			for _, ins := range b.Instrs {
+				switch x := ins.(type) {
+				case *ssa.Store:
+					if x.Addr == ssa.Value(g) && fn.Name() != "init" {
+						bad = append(bad, fmt.Sprintf("%s replaces the reader (%s)", fn.Name(), r.m.P.Pos(x.Pos())))
+					}
+				case *ssa.UnOp:
+					if x.X != ssa.Value(g) {
+						continue
+					}
+					for _, ref := range *x.Referrers() {
+						uses++
+						c, ok := ref.(*ssa.Call)
+						callee := ""
+						if ok {
+							if sc := c.Call.StaticCallee(); sc != nil {
+								callee = sc.String()
+							}
+						}
+						if callee != "(*bufio.Reader).ReadString" || len(c.Call.Args) == 0 || c.Call.Args[0] != ssa.Value(x) {
+							what := callee
+							if what == "" {
+								what = fmt.Sprintf("%T", ref)
+							}
+							bad = append(bad, fmt.Sprintf("%s uses it in %s (%s)", fn.Name(), what, r.m.P.Pos(ref.Pos())))
+						}
+					}
+				}
+			}
+		}
+	}
+	sort.Strings(bad)
+	if len(bad) == 0 && uses >= 1 {
+		r.s.OK("V12", key, r.pos, fmt.Sprintf("%d use(s), all ReadString", uses))
+	} else {
+		r.s.Bad("V12", key, r.pos, "the shared reader buffers input beyond the line it returns; any other use loses or steals lines that later read() calls must see: "+strings.Join(bad, "; "))
+	}
+}
+
+// jumpRules (V18): the control transfer the compiler rules assume. JMP
+// continues at ip + src0 (one signed operand, nothing else), JMPF / JMPT at
+// ip + src1 when the condition is false / true and at ip + 1 otherwise; an
+// instruction that is not a control instruction continues at ip + 1.
+func (r *ruler) jumpRules() {
+	ipOf := func(pa *Path) string { return absint.Key(pa.Final["ip"]) }
+	for _, pa := range r.normal("JMP") {
+		key := r.key("JMP", "continues at ip + src0")
+		r.okIf("V18", key, pa, ipOf(pa) == "(A0+IP)" && len(events(pa, "fetch", "")) == 0, "ip + src0", "an unconditional jump must continue at ip + src0 exactly (the compiler patches the distance between two code positions into that one operand); it continues at "+ipOf(pa))
+	}
+	for _, op := range []string{"JMPF", "JMPT"} {
+		taken, fall := 0, 0
+		for _, pa := range r.normal(op) {
+			c := condsWith(pa, "ToBool.0")
+			if len(c) != 1 {
+				r.s.Bad("V18", r.key(op, "decides on the condition value"), r.ppos(pa), "the path does not decide on the boolean value of the condition", pa.Describe()...)
+				continue
+			}
+			isTrue := strings.HasSuffix(c[0], ":= true")
+			jumps := isTrue == (op == "JMPT")
+			if jumps {
+				taken++
+				r.okIf("V18", r.key(op, "taken: continues at ip + src1"), pa, ipOf(pa) == "(A1+IP)", "ip + src1", fmt.Sprintf("%s with a %v condition must continue at ip + src1; it continues at %s", op, isTrue, ipOf(pa)))
+			} else {
+				fall++
+				r.okIf("V18", r.key(op, "not taken: continues at the next instruction"), pa, ipOf(pa) == "(IP+1)", "ip + 1", fmt.Sprintf("%s with a %v condition must fall through; it continues at %s", op, isTrue, ipOf(pa)))
+			}
+		}
+		if taken == 0 || fall == 0 {
+			r.s.Bad("V18", r.key(op, "both outcomes"), r.pos, fmt.Sprintf("%s must have a taken and a fall-through outcome (found %d / %d)", op, taken, fall))
+		}
+	}
+	// everything that is not a control instruction falls through
+	control := map[string]bool{"JMP": true, "JMPF": true, "JMPT": true, "CALL": true, "RET": true, "YIELD": true, "CCONT": true, "SCONT": true, "DCONT": true, "RCONT": true, "EXIT": true}
+	n := 0
+	var bad []string
+	for _, op := range r.ops() {
+		if control[op] {
+			continue
+		}
+		for _, pa := range r.m.Paths[op] {
+			if pa.End != "next" {
+				continue
+			}
+			n++
+			if ipOf(pa) != "(IP+1)" {
+				bad = append(bad, op+" continues at "+ipOf(pa))
+			}
+		}
+	}
+	sort.Strings(bad)
+	if len(bad) == 0 && n > 100 {
+		r.s.OK("V18", "vm.Run / every other instruction continues at ip + 1", r.pos, fmt.Sprintf("%d successful handler paths", n))
+	} else {
+		r.s.Bad("V18", "vm.Run / every other instruction continues at ip + 1", r.pos, fmt.Sprintf("%d paths; offenders: %s", n, strings.Join(bad, "; ")))
 	}
 }
